@@ -77,12 +77,37 @@ def run(m, rep, tier):
     if mod is None:
         m4.undecided('memory.c', 'unit not in the model')
     else:
-        for f in list(mod.defined()) + [g for g in m.all_plain_functions() if (g.file or '').endswith('memory.h')]:
+        fns = list(mod.defined()) + [g for g in m.all_plain_functions() if (g.file or '').endswith('memory.h')]
+        callers = {}
+        for g in fns:
+            for c in g.all_insts():
+                if c.op == 'call' and c.callee:
+                    callers.setdefault(c.callee, set()).add(g.name)
+
+        def owner_functions(name, seen=()):
+            """the lifetime functions a static helper works for (None if it can be reached from anywhere else)"""
+            if name in allowed:
+                return {name}
+            g = mod.fn(name)
+            if g is None or g.linkage != 'internal' or name in seen or not callers.get(name):
+                return None
+            out = set()
+            for cn in callers[name]:
+                o = owner_functions(cn, seen + (name,))
+                if o is None:
+                    return None
+                out |= o
+            return out
+
+        for f in fns:
             for c in f.all_insts():
                 if c.op == 'call' and c.callee in ('malloc', 'calloc', 'realloc', 'free'):
                     site = '%s:%s' % (f.name, c.callee)
+                    own = owner_functions(f.name)
                     if c.callee in allowed.get(f.name, ()):
                         m4.ok(site, 'lifetime function', c.loc())
+                    elif own and all(c.callee in allowed[o] for o in own):
+                        m4.ok(site, 'static helper used only by %s' % ', '.join(sorted(own)), c.loc())
                     else:
                         m4.violation(site, '%s is called in %s: blocks must be allocated / released only by the lifetime functions, whose counting M1/M2 check'
                                      % (c.callee, f.name), c.loc(), {})
